@@ -8,7 +8,7 @@ from aioesphomeapi.core import ProtocolAPIError
 from google.protobuf.descriptor import FieldDescriptor as FD
 
 from vf import pbstub, track
-from vf.harness.common import SymTuple, base_loop, concretize, connected_conn, same, shard_int
+from vf.harness.common import Sub, SymTuple, base_loop, concretize, connected_conn, same, shard_int
 
 PROPERTY = "C12"
 
@@ -180,11 +180,11 @@ def h12d_scripts(s0: int, s1: int, s2: int, nmsg: int, key0: int, key1: int) -> 
                 elif sc == S_SUB_NEW:
                     lst = []
                     new_logs.append((len(sent), lst))
-                    conn.add_message_callback(lambda m, _l=lst: _l.append(m.key), (Stub,))
+                    conn.add_message_callback(Sub(3 + len(new_logs), lambda m, _l=lst: _l.append(m.key)), (Stub,))
             return cb
 
         for i in range(3):
-            removers[i] = conn.add_message_callback(make(i), (Stub,))
+            removers[i] = conn.add_message_callback(Sub(i, make(i)), (Stub,))
         keys = [key0, key1][:n]
         expect = [[], [], []]
         for k in keys:
